@@ -375,7 +375,8 @@ def check_C14(hs: History, conns, ex: Expect, ob: Obs):
         # a victim that also listens to FAILED_MESSAGE / CLIENT_CLOSED may already die while the notice or the
         # CLIENT_CLOSED caused by ANOTHER undeliverable recipient of the same message is delivered to it
         tolerant = [x for x in d["failed"] if len(d["failed"]) + len(d["unwritable"]) > 1 and
-                    (conns[x].wants(MT["CLIENT_CLOSED"]) or conns[x].wants(MT["FAILED_MESSAGE"]))]
+                    (conns[x].wants(MT["CLIENT_CLOSED"]) or conns[x].wants(MT["FAILED_MESSAGE"])
+                     or conns[x].wants(MT["RTMA_LOG_ERROR"]))]
         want = [] if h["type"] in nolist else [conns[x].mod_id for x in d["unwritable"] + d["failed"]
                                               if (not conns[x].logger or x in d["failed"]) and x not in tolerant]
         got = [n[1] for n in notices if n[2]["type"] == h["type"] and tuple(n[2]["x"])[:5] ==
@@ -514,7 +515,7 @@ CHECKERS = dict(C01=check_C01, C03=check_C03, C05=check_C05, C06=check_C06, C07=
 def gen_monitored(rng: random.Random, flavor: str, nrounds: int = 16) -> History:
     """histories with connection 1 as logger+ALL monitor and well-separated module ids, so that the
     specification's verdict is unambiguous.  flavor: routing | acks | ids | depart | drops | stats"""
-    hs = History(loglevel=60 if flavor == "drops" else rng.choice([60, 60, 60, 40, 20]), timing=True,
+    hs = History(loglevel=rng.choice([60, 40]) if flavor == "drops" else rng.choice([60, 60, 60, 40, 20]), timing=True,
                  timecode=rng.random() < 0.15, tag="mon-" + flavor)
     now = 0
     hs.round([], [], now, accept=True)
